@@ -80,10 +80,11 @@ Record cfg := {
   c_early_typecheck : bool;    (* fix 5: mistyped constants reported in the first pass *)
   c_all_numeric : bool;        (* fix 6: every number const is registered for later const exprs *)
   c_reject_zero : bool;        (* fix 7: zero input bits is a CompilerError *)
-  c_check_arith : bool         (* fix 8: checker rejects max/min/+/- in non-number consts *)
+  c_check_arith : bool;        (* fix 8: checker rejects max/min/+/- in non-number consts *)
+  c_one_type : bool            (* fix 9: one external constant declared with two types is a type error *)
 }.
-Definition repaired : cfg := Build_cfg true true true true true true true true.
-Definition original : cfg := Build_cfg false false false false false false false false.
+Definition repaired : cfg := Build_cfg true true true true true true true true true.
+Definition original : cfg := Build_cfg false false false false false false false false false.
 
 (* ------------------------------------------------------------------ maps keyed by names *)
 
@@ -154,7 +155,13 @@ Fixpoint check_cexpr (c : cfg) (decl : list (N * cty)) (ty : cty) (e : cexpr) (s
   | ETrue | EFalse => if cty_eqb ty TBool then s else err TUnexpectedType
   | EUns _ t => if cty_eqb ty (TU t) then s else err TUnexpectedType
   | ESig _ t => if cty_eqb ty (TS t) then s else err TUnexpectedType
-  | EExt p n => Build_chk (k_errs s) (dset (k_deps s) (p, n) (ty, meta)) (k_meta s)
+  | EExt p n =>
+      match dget (k_deps s) (p, n) with
+      | Some (t', _) =>
+          if c_one_type c && negb (cty_eqb t' ty) then err TUnexpectedType
+          else Build_chk (k_errs s) (dset (k_deps s) (p, n) (ty, meta)) (k_meta s)
+      | None => Build_chk (k_errs s) (dset (k_deps s) (p, n) (ty, meta)) (k_meta s)
+      end
   | EId i =>
       match assocN decl i with
       | Some t => if cty_eqb ty t then s else err TUnexpectedType
